@@ -38,11 +38,12 @@ def child_slots(P):
         if isinstance(x, ast.Call) and dotted(x.func) == "self.lower_node" and x.args \
                 and isinstance(x.args[0], ast.Attribute) and isinstance(x.args[0].value, ast.Name):
             single.add(x.args[0].attr)
-        if isinstance(x, ast.For) and isinstance(x.iter, ast.Attribute) \
-                and isinstance(x.iter.value, ast.Name) \
-                and any(isinstance(y, ast.Call) and dotted(y.func) == "self.lower_node"
-                        for y in ast.walk(x)):
-            listy.add(x.iter.attr)
+        if isinstance(x, ast.For) and any(isinstance(y, ast.Call) and dotted(y.func) == "self.lower_node"
+                                          for y in ast.walk(x)):
+            for y in ast.walk(x.iter):
+                if isinstance(y, ast.Attribute) and isinstance(y.value, ast.Name) \
+                        and y.value.id == f.params[1]:
+                    listy.add(y.attr)
     if not single or not listy:
         raise AnalysisError("lower_node: child slots not recognised")
     return single, listy
